@@ -206,3 +206,28 @@ Example C37_serial_example :
 Proof.
   apply C37_two_updaters_serial_guarded; apply coherent_none.
 Qed.
+
+(* ---- ref update during push (InterToLocalGitRepository.fetch_refs) ---- *)
+
+(* [v0] = the target's refs as the push read them at its start, [st] = the target when the
+   push finally writes (any other updater may have run in between).  The write is conditional
+   on the snapshot value: if the ref no longer holds it NOTHING is written; a ref that was
+   absent in the snapshot never overwrites an existing one. *)
+Theorem C37_push_conditional_on_snapshot :
+  forall valid v0 st pc n new,
+    valid n = true -> coherent pc st ->
+    let st' := fst (exec valid (push_op v0 n new) st pc) in
+    (forall o, v0 n = Some o -> o <> cur (view st) (target (view st) n) -> st' = st) /\
+    (forall o, v0 n = Some o -> o = cur (view st) (target (view st) n) ->
+       forall x, view st' x = if N.eqb x (target (view st) n) then Some (VSha new) else view st x) /\
+    (v0 n = None -> forall m v, view st m = Some v -> view st' m = Some v).
+Proof. exact push_conditional. Qed.
+Print Assumptions C37_push_conditional_on_snapshot.
+
+(* snapshot a = 1, the other updater moved a to 3 meanwhile: the push of 2 leaves 3 in place *)
+Example C37_push_example :
+  let st0 := mk_store [(1%N, VSha 1%N)] [] in
+  let st1 := seq_final all_valid [OpSet 1%N (Some (VSha 1%N)) 3%N] st0 None in
+  view (fst (exec all_valid (push_op (view st0) 1%N 2%N) st1 None)) 1%N = Some (VSha 3%N) /\
+  view (fst (exec all_valid (push_op (view st0) 1%N 2%N) st0 None)) 1%N = Some (VSha 2%N).
+Proof. vm_compute. split; reflexivity. Qed.
